@@ -160,6 +160,37 @@ pub fn run(args: &Args) {
         }
         out.ev(json!({"ev":"hist","ops":ops}));
     }
+    // ---- envelope period rewritten in mid-step (no R13 write afterwards): the envelope goes on with the new period
+    for h in 0..n.max(16) {
+        let mut ay = chip(AyMode::Mono, 44100);
+        let mut ops: Vec<Value> = vec![];
+        let ch = (h % 3) as u8;
+        let shape = [8u8, 10, 12, 14][(h / 3 % 4) as usize];
+        let (ep1, ep2) = match h % 4 {
+            0 => (17u8, 2u8),
+            1 => (40, 1 + r.below(8) as u8),
+            2 => (3, 40),
+            _ => (1 + r.below(60) as u8, 1 + r.below(60) as u8),
+        };
+        let mut w = |ay: &mut AymPrecise, ops: &mut Vec<Value>, reg: u8, val: u8| {
+            ay.write_register(reg, val);
+            ops.push(json!(["w", reg, val]));
+        };
+        w(&mut ay, &mut ops, 7, 0x3F);
+        w(&mut ay, &mut ops, 8 + ch, 0x10 | (r.u8() & 0x0F));
+        w(&mut ay, &mut ops, 11, ep1);
+        w(&mut ay, &mut ops, 12, 0);
+        w(&mut ay, &mut ops, 13, shape);
+        for (k, ep) in [(0u64, ep1), (1, ep2), (2, ep1), (3, ep2)] {
+            if k > 0 {
+                w(&mut ay, &mut ops, 11, ep);
+            }
+            ay.verif_take_levels();
+            let lv = run_ticks(&mut ay, 1 + r.below(3 * ep1.max(ep2) as u64 + 40) as usize);
+            ops.push(json!(["run", lv.iter().map(|x| x.to_vec()).collect::<Vec<_>>()]));
+        }
+        out.ev(json!({"ev":"hist","ops":ops}));
+    }
     // ---- analog side: DAC monotone in volume, pan classes, frequency, bounds
     {
         let mut amps = vec![];
